@@ -633,8 +633,9 @@ def const_arg(fn, op):
 class TooManyPaths(Exception):
     pass
 
-def enum_paths(fn, start=0, limit=20000, stop_blocks=()):
-    """All acyclic block paths from start to a return (or stop block / dead end)."""
+def enum_paths(fn, start=0, limit=20000, stop_blocks=(), loop_iterations=False):
+    """All acyclic block paths from start to a return (or stop block / dead end).  With loop_iterations, a path that would
+    close a cycle is also reported, ending at the block before the back edge (one full iteration of the loop body)."""
     out = []
     stop_blocks = set(stop_blocks)
     def dfs(b, path, onpath):
@@ -649,7 +650,9 @@ def enum_paths(fn, start=0, limit=20000, stop_blocks=()):
             for s in ss:
                 if s in seen: continue
                 seen.add(s)
-                if s in onpath: continue
+                if s in onpath:
+                    if loop_iterations and not fn.blocks[b].get("cleanup"): out.append(list(path) + [s])
+                    continue
                 dfs(s, path, onpath)
         path.pop(); onpath.discard(b)
     import sys
@@ -662,6 +665,8 @@ def _proj_expr(e, proj):
         if p == "*": continue
         if isinstance(p, str): continue
         if p[0] == "f":
+            if e[0] == "as" and isinstance(e[1], tuple) and e[1][0] == "agg" and str(e[1][1]).rsplit("::", 1)[-1] == e[2]:
+                e = e[1]          # (Some(x) as Some).0  ->  x
             if e[0] == "agg":
                 hit = None
                 for i, (fname, fe) in enumerate(e[2]):
@@ -819,11 +824,12 @@ class SymPath:
                     seen[k] = ("eq", tuple(vals))
         return True
 
-def sym_paths(fn, limit=20000, feasible_only=True):
-    """SymPath for every acyclic path of fn that ends in a return (infeasible ones dropped)"""
+def sym_paths(fn, limit=20000, feasible_only=True, loop_iterations=False):
+    """SymPath for every acyclic path of fn that ends in a return (infeasible ones dropped); with loop_iterations also the
+    paths that run one iteration of a loop body and reach its back edge"""
     out = []
-    for p in enum_paths(fn, limit=limit):
-        if fn.blocks[p[-1]]["t"][0] != "ret": continue
+    for p in enum_paths(fn, limit=limit, loop_iterations=loop_iterations):
+        if fn.blocks[p[-1]]["t"][0] != "ret" and not (loop_iterations and len(p) > 1 and p[-1] in p[:-1]): continue
         sp = SymPath(fn, p)
         if feasible_only and not sp.feasible(): continue
         out.append(sp)
@@ -857,15 +863,23 @@ def strip_as(e):
         e = e[1]
     return e
 
-def str_eq_cond(cond):
+_SEQ_F = [None]
+def str_eq_cond(cond, F=None):
     """if a path condition is `str == const` return (subject_expr, const, truth) else None"""
     d, (rel, vals), b = cond
-    if d[0] == "call" and isinstance(d[1], str) and "PartialEq" in d[1] and d[1].endswith("::eq") or (d[0] == "call" and isinstance(d[1], str) and d[1].endswith("PartialEq<&B> for &A>::eq")):
-        args = d[2]
+    F = F or _SEQ_F[0]
+    if d[0] == "call" and isinstance(d[1], str) and "PartialEq" in d[1] and (d[1].endswith("::eq") or d[1].endswith("::ne")) or (d[0] == "call" and isinstance(d[1], str) and d[1].endswith("PartialEq<&B> for &A>::eq")):
+        args = list(d[2])
+        if F is not None:
+            for i, a in enumerate(args):
+                if a[0] == "promoted":
+                    v = promoted_value(F, {"k": "promoted", "of": a[1], "idx": a[2]})
+                    if v is not None and v[0] == "const": args[i] = v
         consts = [a for a in args if a[0] == "const" and isinstance(a[1], str)]
         other = [a for a in args if not (a[0] == "const" and isinstance(a[1], str))]
         if len(consts) == 1:
             truth = (rel == "ne" and 0 in vals) or (rel == "eq" and 0 not in vals)
+            if d[1].endswith("::ne"): truth = not truth
             return (other[0] if other else None, consts[0][1], truth)
     return None
 
